@@ -44,10 +44,10 @@ Inductive c07case :=
 | KSel (jn pj : N) (listing : list Sweep.fd) (replayed : list N)
     (* recoverJournal: stJournalNum and stPrevJournalNum as session.recover left them, the listing, and the
        journals it opened for replay, in order *)
-| KOpen (v : Sweep.view) (listing : list Sweep.fd) (fl : list N) (bad : list Sweep.fd)
+| KOpen (v : Sweep.view) (listing : list Sweep.fd) (fl : list N) (mbad : bool) (bad : list Sweep.fd)
         (calls : list Sweep.fd) (ok : bool) (after : list Sweep.fd) (journal man nxt : N)
     (* one whole Open on [listing] when session.recover computes v: tables flushed per replayed journal,
-       failing Remove calls; observed: every Remove call in order, whether Open succeeded, the listing
+       whether the removal of the old manifest by the first commit failed, other failing Remove calls; observed: every Remove call in order, whether Open succeeded, the listing
        afterwards, and (on success) db.journalFd.Num, s.manifestFd.Num, s.stNextFileNum *)
 with jres := JR (calls : list Sweep.fd) (done : bool) | JM (ts : list N).
     (* one session of the REAL version layer: how it was opened (created, or recovered - the manifest
@@ -149,8 +149,8 @@ Definition run_case (c : c07case) : bool :=
       | _, _ => false
       end
   | KSel jn pj listing replayed => leqb (Sweep.rj_select jn pj listing) replayed
-  | KOpen v listing fl bad calls ok after journal man nxt =>
-      let s := Sweep.open_db v fl bad (Sweep.boot listing v true) in
+  | KOpen v listing fl mbad bad calls ok after journal man nxt =>
+      let s := Sweep.open_db v fl mbad bad (Sweep.boot listing v true) in
       fds_eqb (rev (map fst (Sweep.trace s))) calls
       && Bool.eqb (Sweep.opened s) ok
       && fds_same (Sweep.files s) after
